@@ -15,8 +15,8 @@ RULE = ("case = generated hierarchy (nested lists of components, lists of ports/
         "elaboration of freshly constructed objects; non-trivial = >=30 named objects incl. >=1 lazily created "
         "slice/field signal and >=1 component list; distinct = case digest. The program dimension is plain "
         "generation; what the simulator adds is the order dimension (DESIGN.md C14).")
-TIERS = {"quick": {"runs": 480, "budget_s": 100, "chunk": 4},
-         "thorough": {"runs": 40000, "budget_s": 1800, "chunk": 8}}
+TIERS = {"quick": {"runs": 960, "budget_s": 100, "chunk": 4},
+         "thorough": {"runs": 150000, "budget_s": 1800, "chunk": 8}}
 REAL = ["NamedObject naming (__setattr_for_elaborate__)", "Signal.__getattr__ / __getitem__ lazy field and slice signals",
         "Component elaboration metadata"]
 STUB = ["design generator", "statement re-ordering", "name walker"]
